@@ -330,6 +330,13 @@ def s1_discriminant():
                     yield 'disc/extreme_unit/' + tag, en('E', [variant(names[k], 'Unit', [], [sub('default')] if k == 0 else [], disc=pat[k]) for k in range(5)], [repr_attr(*rs), dw(ts + ['Default'])])
                 if 'Copy' not in ts:
                     yield 'disc/extreme_data/' + tag, en('E', [variant(names[k], *(('Unnamed', unnamed(1, [['T']])) if k in (1, 4) else ('Unit', [])), disc=pat[k]) for k in range(5)], [repr_attr(*rs), dw(ts)])
+    # single-variant enums: Discriminant::parse answers Single before it looks at representations or discriminants
+    for stag, v1 in (('tuple', variant('A', 'Unnamed', unnamed(1, [['T']]))), ('tuple_disc', variant('A', 'Unnamed', unnamed(1, [['T']]), disc=(['5'], 5))),
+                     ('named_disc', variant('A', 'Named', named(1, [['T']]), disc=(['-', '1'], -1)))):
+        for rtag, ra in (('none', []), ('packed', [repr_attr('packed')]), ('unknown', [repr_attr('foo')]), ('i8', [repr_attr('i8')]), ('C_unknown', [repr_attr('C', 'simd')]),
+                         ('unparsable', [('Repr', ('Unparsable', ['align', '(', '8', ')']))])):
+            for ts in (['PartialOrd', 'PartialEq'], ['Clone'], ['Ord', 'PartialOrd', 'PartialEq', 'Eq']):
+                yield 'disc/single/%s/%s/%s' % (stag, rtag, '+'.join(ts)), en('E', [v1], ra + [dw(ts)])
     # several repr attributes, extremes
     D = [sub('default')]
     yield 'disc/two_repr_attrs', en('E', [variant('A', 'Unit', [], D), variant('B')], [repr_attr('C'), repr_attr('u16'), dw(['PartialOrd', 'Default'])])
